@@ -102,9 +102,11 @@ class MemBlockingControl(BaseBlockingControl):
         with self._lock:
             candidates = list(self._ready)
         for inv_id in candidates:
-            if self.app.orchestrator.get_invocation_status(
-                inv_id
-            ).is_available_for_run():
+            try:
+                status = self.app.orchestrator.get_invocation_status(inv_id)
+            except KeyError:
+                continue  # awaited but unknown to the orchestrator (e.g. purged): cannot run
+            if status.is_available_for_run():
                 max_num_invocations -= 1
                 yield inv_id
                 if max_num_invocations == 0:
